@@ -28,7 +28,7 @@ import (
 
 // Root causes that were found on the unchanged tree, reproduced by stand-alone programs (repro.go) and accepted as
 // genuine defects. Each key is produced ONLY when its precise cause is present and explains the whole deviation of a
-// block (see checkBlock): the search continues through such states ("soft"), any residue alarms under a generic key.
+// block (see runBlock): the search continues through such states ("soft"), any residue alarms under a generic key.
 const (
 	knownRing1Key   = "uin-ring1:pseudo-out-not-bound-to-spent-commitment"
 	knownCreateKey  = "create:tokens-at-prefunded-address-destroyed"
@@ -60,6 +60,7 @@ type model struct {
 	adjust     bool
 	knownDelta map[common.Address]*big.Int // supply change explained by known defects
 	events     map[string]string           // known key -> what happened
+	createdNow map[common.Address]bool     // contracts created by earlier transactions of this block
 }
 
 type expOut struct {
@@ -69,7 +70,7 @@ type expOut struct {
 
 func newModel(w *world, pre *observation, adjust bool) *model {
 	m := &model{w: w, bal: map[common.Address]map[common.Address]*big.Int{}, issued: map[common.Address]*big.Int{}, destroyed: map[common.Address]*big.Int{},
-		hiddenDelta: map[common.Address]*big.Int{}, suicided: map[common.Address]bool{}, adjust: adjust, knownDelta: map[common.Address]*big.Int{}, events: map[string]string{}}
+		hiddenDelta: map[common.Address]*big.Int{}, suicided: map[common.Address]bool{}, adjust: adjust, knownDelta: map[common.Address]*big.Int{}, events: map[string]string{}, createdNow: map[common.Address]bool{}}
 	for a, ac := range pre.Accounts {
 		m.bal[a] = map[common.Address]*big.Int{}
 		for t, v := range ac.Bal {
@@ -111,10 +112,12 @@ func (m *model) issue(tok common.Address, q *big.Int) { bump(m.issued, tok, q) }
 // created: a contract is created at address at. What the address already holds stays there.
 // Known defect (adjusted model only): StateDB.CreateAccount carries over the coin balance only, the tokens vanish.
 func (m *model) created(at common.Address) {
+	m.createdNow[at] = true
 	if !m.adjust {
 		return
 	}
-	for t, v := range m.bal[at] {
+	for _, t := range sortedToks(m.bal[at]) {
+		v := m.bal[at][t]
 		if t != coinTok && v.Sign() > 0 {
 			bump(m.knownDelta, t, new(big.Int).Neg(v))
 			m.events[knownCreateKey] = fmt.Sprintf("a contract was created at %s, which held %s of token %s: the tokens are gone (the coin balance is carried over)", m.w.roleOf(at), v, tokClass(m.w, t))
@@ -129,8 +132,14 @@ func (m *model) finish() {
 	if !m.adjust {
 		return
 	}
+	var cs []common.Address
 	for c := range m.suicided {
-		for t, v := range m.bal[c] {
+		cs = append(cs, c)
+	}
+	sort.Slice(cs, func(i, j int) bool { return cs[i].Hex() < cs[j].Hex() })
+	for _, c := range cs {
+		for _, t := range sortedToks(m.bal[c]) {
+			v := m.bal[c][t]
 			if v.Sign() > 0 {
 				bump(m.knownDelta, t, new(big.Int).Neg(v))
 				m.events[knownSuicideKey] = fmt.Sprintf("%s self-destructed and later in the same block received %s of %s: destroyed when the block ends", m.w.roleOf(c), v, tokClass(m.w, t))
@@ -140,14 +149,18 @@ func (m *model) finish() {
 	}
 }
 
-// selfdestruct: every holding of c goes to ben; in favour of itself = destroyed (designed exception).
-func (m *model) selfdestruct(c, ben common.Address) {
+func sortedToks(mp map[common.Address]*big.Int) []common.Address {
 	var ts []common.Address
-	for t := range m.bal[c] {
+	for t := range mp {
 		ts = append(ts, t)
 	}
 	sort.Slice(ts, func(i, j int) bool { return ts[i].Hex() < ts[j].Hex() })
-	for _, t := range ts {
+	return ts
+}
+
+// selfdestruct: every holding of c goes to ben; in favour of itself = destroyed (designed exception).
+func (m *model) selfdestruct(c, ben common.Address) {
+	for _, t := range sortedToks(m.bal[c]) {
 		h := new(big.Int).Set(m.bal[c][t])
 		if h.Sign() == 0 {
 			continue
@@ -196,7 +209,7 @@ func (m *model) apply(t *txMeta, rc *types.Receipt) {
 		m.credit(collector, coinTok, fee)
 		// Known defect (adjusted model only): value and unused fee go to tx.RefundAddr, the zero address for a pure
 		// confidential transaction
-		if m.adjust && t.Token == coinTok && t.AccOut != nil && t.AinDebit == nil {
+		if m.adjust && t.Token == coinTok && t.AccOut != nil && t.AinDebit == nil && m.createdNow[*t.AccOut] {
 			lost := sub(add(t.AccAmount, t.Fee), fee)
 			m.credit(common.EmptyAddress, coinTok, lost)
 			m.events[knownUinCallKey] = fmt.Sprintf("the confidential payment %s to %s (a contract created earlier in this block) failed as a call: %s coin (value + unused fee) were credited to the zero address", t.Op, m.w.roleOf(*t.AccOut), lost)
@@ -209,7 +222,15 @@ func (m *model) apply(t *txMeta, rc *types.Receipt) {
 	if t.Token != coinTok {
 		m.debit(t.Payer, coinTok, t.Fee)
 	}
-	m.credit(collector, coinTok, t.Fee)
+	if used := gasFee(rc.GasUsed); m.adjust && t.Token == coinTok && t.AccOut != nil && t.AinDebit == nil && m.createdNow[*t.AccOut] && used.Cmp(t.Fee) < 0 {
+		// Known defect (adjusted model only), success path: the payment reached a contract created earlier in this block
+		// and ran as a call; the part of the fee the call did not use is "refunded" to the zero address
+		m.credit(collector, coinTok, used)
+		m.credit(common.EmptyAddress, coinTok, sub(t.Fee, used))
+		m.events[knownUinCallKey] = fmt.Sprintf("the confidential payment %s to %s (a contract created earlier in this block) was executed as a call: the unused part of the fee, %s coin, was credited to the zero address instead of the fee collector", t.Op, m.w.roleOf(*t.AccOut), sub(t.Fee, used))
+	} else {
+		m.credit(collector, coinTok, t.Fee)
+	}
 	if t.AccOut != nil {
 		m.credit(*t.AccOut, t.Token, t.AccAmount)
 	}
